@@ -399,6 +399,7 @@ impl Prims {
                 2 => gen::any_word(&mut cx.rng, lang),
                 _ => cx.rng.pick(&words).chars().take(cx.rng.range(1, 2)).collect(),
             };
+            let q = if cx.rng.chance(1, 25) { cx.rng.pick(&["", " ", "-", "...", "\u{301}"]).to_string() } else { q };
             let size = if cx.rng.chance(1, 5) { *cx.rng.pick(&[6, 7, 8, 10, 13, 26, 50, 100, 1000, 6554]) } else { cx.rng.below(6) };
             let q = if cx.rng.chance(1, 12) {
                 // a query of 21-30 words (beyond the 20-slot buffers), many distinct grams
@@ -513,6 +514,14 @@ impl Prims {
     fn index_check(&self, cx: &mut Cx, lang: &str, st: &St, n: &usize, rgrams: &[BTreeSet<oracle::Gram>], q: &str, size: usize, store_desc: &serde_json::Value) {
         let tq = st.tok_query(q);
         if tq.words.is_empty() {
+            // a query without words has no gram: nothing can share one with it
+            cx.ctx(format!("C18 lang={} store={} q={:?} (no words) size={}", lang, store_desc, q, size));
+            let got = st.store.index.borrow_mut().prepare(&tq.to_ref(), size);
+            cx.eval();
+            cx.count("calls with a query without words");
+            if !got.is_empty() {
+                cx.fail("index-candidates", json!({"lang": lang, "store": store_desc, "query": q, "size": size, "got": got, "errors": ["the query has no word, hence no gram, but positions are listed"]}));
+            }
             return;
         }
         let qg = oracle::grams_of(&tq);
@@ -698,9 +707,22 @@ impl Prims {
                 drop(st);
             }
         }
-        if let Some((pst, pq, plang)) = &survivor {
+        if let Some((pst, pq, plang)) = survivor {
             cx.ctx(format!("C19 store: final search {:?} on the surviving {}-record {} store", pq, pst.store.records.len(), plang));
-            let _ = pst.search(pq);
+            if cx.tier != Tier::Miri && cx.rng.chance(1, 3) {
+                // `Store` is `Send`: filled on this thread, searched on a new one (whose scratch state is new)
+                match std::thread::spawn(move || {
+                    let _ = pst.search(&pq);
+                })
+                .join()
+                {
+                    Ok(()) => {}
+                    Err(e) => std::panic::resume_unwind(e),
+                }
+                cx.count("stores filled on one thread and searched on another");
+            } else {
+                let _ = pst.search(&pq);
+            }
             cx.eval();
             cx.count("searches on a surviving store after a neighbour store was dropped");
         }
@@ -736,8 +758,8 @@ impl Prop for Prims {
         match self.0 {
             Which::Distance => vec![("exhaustive pairs", 100000, 2000000), ("prefix cells compared", 1000000, 20000000), ("pairs where a discount lowered the distance", 10000, 100000), ("random pairs beyond capacity 20", 500, 5000), ("long pairs with sampled prefix cells", 200, 2000), ("random cases with per-position character classes", 2000, 20000), ("re-classed repeat calls", 10000, 100000), ("hook matrix growths", 3, 3), ("hook matrix max size", 50, 50)],
             Which::Jaccard => vec![("exhaustive pairs", 100000, 1500000), ("pairs with partial overlap", 20000, 200000), ("pairs beyond the initial capacity of 20", 500, 5000), ("random cases over a wide alphabet", 1000, 10000), ("hook jaccard accesses", 100000, 1000000)],
-            Which::Index => vec![("prepare calls", 5000, 50000), ("capped calls", 500, 5000), ("calls with ties at the cut", 100, 1000), ("size 0", 300, 3000), ("corpus prepare calls", 200, 2000), ("stores of 1023-5000 records", 50, 500), ("queries with more than 255 distinct grams", 300, 15000), ("calls at the boundary between 'all listed' and 'capped'", 300, 15000), ("session calls on one index", 1000000, 10000000), ("most calls on one index max ", 131000, 131000), ("sessions past 2^17 calls", 2, 20)],
-            Which::Unchecked => vec![("direct distance/similarity calls", 20000, 200000), ("direct calls beyond capacity 20", 5000, 50000), ("store-level searches", 5000, 50000), ("store-level rounds with 127-1500 records", 200, 2000), ("store-level rounds with clear and re-add", 500, 5000), ("type-ahead sequences with adds in between", 1000, 10000), ("direct call sequences with words of 76-420 letters", 200, 2000), ("direct call sequences with arithmetic length relations", 300, 3000), ("store-level queries of 65-200 words", 300, 3000), ("searches on a surviving store after a neighbour store was dropped", 3000, 30000), ("jaccard calls on sets of 256-70000 distinct elements", 20, 200), ("hook matrix accesses", 1000000, 10000000), ("hook matrix growths", 3, 3), ("hook matrix max size", 50, 50), ("hook counter accesses", 10000, 100000), ("hook cost accesses", 100000, 1000000), ("hook jaccard accesses", 10000, 100000)],
+            Which::Index => vec![("prepare calls", 5000, 50000), ("capped calls", 500, 5000), ("calls with ties at the cut", 100, 1000), ("size 0", 300, 3000), ("corpus prepare calls", 200, 2000), ("stores of 1023-5000 records", 50, 500), ("queries with more than 255 distinct grams", 300, 15000), ("calls at the boundary between 'all listed' and 'capped'", 300, 15000), ("session calls on one index", 1000000, 10000000), ("most calls on one index max ", 131000, 131000), ("sessions past 2^17 calls", 2, 20), ("calls with a query without words", 300, 3000)],
+            Which::Unchecked => vec![("direct distance/similarity calls", 20000, 200000), ("direct calls beyond capacity 20", 5000, 50000), ("store-level searches", 5000, 50000), ("store-level rounds with 127-1500 records", 200, 2000), ("store-level rounds with clear and re-add", 500, 5000), ("type-ahead sequences with adds in between", 1000, 10000), ("direct call sequences with words of 76-420 letters", 200, 2000), ("direct call sequences with arithmetic length relations", 300, 3000), ("store-level queries of 65-200 words", 300, 3000), ("searches on a surviving store after a neighbour store was dropped", 3000, 30000), ("stores filled on one thread and searched on another", 500, 5000), ("jaccard calls on sets of 256-70000 distinct elements", 20, 200), ("hook matrix accesses", 1000000, 10000000), ("hook matrix growths", 3, 3), ("hook matrix max size", 50, 50), ("hook counter accesses", 10000, 100000), ("hook cost accesses", 100000, 1000000), ("hook jaccard accesses", 10000, 100000)],
         }
     }
     #[allow(unused_variables)]
